@@ -21,7 +21,7 @@ FILES = {"main": "main.asm", "inc": "inc.asm", "other": "other.asm", "cfg": "mos
 
 TEXTS = {
     "ma": '.import * from "inc.asm"\nfoo: {\n  lda bar // é汉 x\n  bar: nop\n}\n  lda foo.bar\n  sta ext\n',
-    "mb": '/// entry\nfoo: {\n  lda baz\n  baz: rts\n}\nfoo2: lda foo.baz // ü\U0001F600 tail\n.const c1 = 4\n  ldx #c1\n.segment "default" {\n  tbl: .byte 1, 2\n}\n',
+    "mb": '/// entry\nfoo: {\n  lda baz\n  baz: rts\n}\nfoo2: lda foo.baz // ü\U0001F600 tail\n.const c1 = 4\n  ldx #c1\n.const seg = "default"\nsc: {\n  .const seg = "default"\n  .segment seg {\n    tbl: .byte 1, 2\n  }\n}\n',
     "mx": '.import * from "inc.asm"\nfoo: {\n  lda (\n  bar: nop\n}\n  sta ext\n',
     "ia": "ext: nop\n",
     "ib": ".import * from \"inc2.asm\"\n/// doc ñ\next: rts\nother2: .byte 1 // ñ\n.segment \"default\" {\n  itbl: .byte 3\n}\n  lda deep\n",
@@ -101,7 +101,7 @@ class Session:
         return self.texts[self.buf[f]] if f in self.buf else TEXTS[self.disk[f]] if f in self.disk else ""
 
     def _ev(self, **kw):
-        e = {"k": "", "f": "", "t": "-", "kind": "", "line": 0, "ch": 0, "status": "", "panic": "", "nonnull": False, "ranges": [],
+        e = {"k": "", "f": "", "t": "-", "nch": 1, "tfirst": "-", "kind": "", "line": 0, "ch": 0, "status": "", "panic": "", "nonnull": False, "ranges": [],
              "hasToks": False, "toks": [], "ans": "", "hasFresh": False, "fresh": "", "freshStatus": "", "pubs": []}
         e.update(kw)
         self.events.append(e)
@@ -112,16 +112,30 @@ class Session:
         self.last_seq = len(self.srv.pub_log)
         return pubs
 
-    def notif(self, k, f, tid="-", text=None):
+    def notif(self, k, f, tid="-", text=None, first=None, nch=1):
+        """first = (tid, text) of the first entry of a didChange with two entries; nch = 0: a didChange without entries"""
         path = os.path.join(self.root, f)
-        if k in ("open", "change"):
+        if k == "nonfile":                       # didOpen of a document that is not a file
+            self.srv.did_open("untitled:Untitled-1", text)
+            self._ev(k="nonfile", f="untitled:Untitled-1", kind="open")
+            return self.request("workspaceSymbol", f, 0, 0, query="\u0001none")
+        if k == "change" and nch == 0:
+            self.srv.did_change_multi(path, [])
+            tid = self.buf[f]
+        elif k == "change" and first:
+            self.note_text(first[0], first[1])
+            self.note_text(tid, text)
+            self.buf[f] = tid
+            self.srv.did_change_multi(path, [first[1], text])
+            nch = 2
+        elif k in ("open", "change"):
             self.note_text(tid, text)
             self.buf[f] = tid
             (self.srv.did_open if k == "open" else self.srv.did_change)(path, text)
         else:
             self.buf.pop(f, None)
             self.srv.did_close(path)
-        e = self._ev(k=k, f=f, t=tid)
+        e = self._ev(k=k, f=f, t=tid, nch=nch, tfirst=(first[0] if first else tid))
         ok = self.request("workspaceSymbol", f, 0, 0, query="\u0001none")          # barrier: separates publish rounds
         pubs = self._round()
         e["pubs"] = [{"f": L.rel(self.root, p), "r": x[:4]} for p, d in pubs for x in L.norm_diags(d)]
@@ -131,7 +145,9 @@ class Session:
 
     def request(self, kind, f, line, ch, final=False, **kw):
         """-> True when the server is still running afterwards"""
-        path = os.path.join(self.root, f)
+        path = f if f.startswith("untitled:") else os.path.join(self.root, f)
+        if f.startswith("untitled:"):
+            self._ev(k="nonfile", f=f, kind=kind)
         m, p = L.params_for(kind, path, line, ch, **kw)
         r = self.srv.request(m, p)
         e = self._ev(k="req", f=f, kind=kind, line=min(line, 2 ** 31 - 1), ch=min(ch, 2 ** 31 - 1), status=r["status"], panic=r["panic"] or "",
@@ -195,7 +211,8 @@ def fresh_reference(mos, root, final_buf, texts, probes, layout):
     rounds = []
     for f in order:
         ses.srv.did_open(os.path.join(root, f), texts[final_buf[f]])
-        ses.srv.request(*L.params_for("workspaceSymbol", os.path.join(root, f), query="\u0001none"))
+        # barrier that reads only (the history server's barriers are workspace/symbol requests: a request must not leave traces)
+        ses.srv.request(*L.params_for("hover", os.path.join(root, "other.asm"), 0, 0))
         rounds = ses._round()
     ses.events = []
     run_probes(ses, probes)
@@ -228,6 +245,12 @@ def run_session(mos, roots, sid, script, layout="A"):
             alive = ses.notif(st[0], st[1], st[2], st[3])
         elif st[0] == "close":
             alive = ses.notif("close", st[1])
+        elif st[0] == "change0":
+            alive = ses.notif("change", st[1], nch=0)
+        elif st[0] == "change2":
+            alive = ses.notif("change", st[1], st[4], st[5], first=(st[2], st[3]))
+        elif st[0] == "nonfile":
+            alive = ses.notif("nonfile", "untitled:Untitled-1", text="  nop\n") if st[1] == "open" else ses.request(st[1], "untitled:Untitled-1", 0, 1)
         elif st[0] == "rename":
             ids = ident_positions(ses.eff(st[1])) or [(0, 0)]
             ln, ch = ids[len(ids) // 2]
@@ -334,6 +357,15 @@ def random_script(rnd, n, layout="A"):
             t = rnd.choice([t for t in tids if openb.get(f) != t])
             sc.append(("change" if f in openb else "open", f, t, TEXTS[t]))
             openb[f] = t
+        y = rnd.random()
+        if f in openb and f != "mos.toml" and y < 0.08:
+            sc.append(("change0", f))
+        elif f in openb and f != "mos.toml" and y < 0.16:
+            t1, t2 = rnd.sample(tids, 2)
+            sc.append(("change2", f, t1, TEXTS[t1], t2, TEXTS[t2]))
+            openb[f] = t2
+        elif y < 0.20:
+            sc.append(("nonfile", rnd.choice(["open", "hover", "documentSymbol", "formatting", "rename", "semanticTokens"])))
         if rnd.random() < 0.35:
             kind = rnd.choice(L.ALL_KINDS)
             g = rnd.choice(["main.asm", "inc.asm", "other.asm"])
@@ -346,7 +378,8 @@ def random_script(rnd, n, layout="A"):
 
 # ---------------------------------------------------------------- main
 
-ALL_DEVS = ["CloseDoesNotReanalyse", "RenameTaintsCache", "StaleDiagnosticsForDroppedFile", "PrepareRenameSlicesPastEol", "SourceLinePastEof", "CompletionSplitsInsideChar"]
+ALL_DEVS = ["CloseDoesNotReanalyse", "RenameTaintsCache", "StaleDiagnosticsForDroppedFile", "PrepareRenameSlicesPastEol", "SourceLinePastEof", "CompletionSplitsInsideChar",
+            "DidChangeFirstEntryWins", "NonFileUriPanics"]
 
 
 def design_level(rep, tier, open_devs):
@@ -415,7 +448,11 @@ def main(tier):
     rnd.shuffle(longer)
     longer = longer[:60 if tier == "quick" else 800]
     # three fixed sessions whose last request is out of range in the three ways the pinned reading crashes on
-    fixed = [[("open", "main.asm", "ma", TEXTS["ma"]), ("req", "prepareRename", "main.asm", 2, 400)],
+    fixed = [[("open", "main.asm", "ma", TEXTS["ma"]), ("change0", "main.asm")],                                  # didChange without entries
+             [("open", "main.asm", "ma", TEXTS["ma"]), ("change2", "main.asm", "mx", TEXTS["mx"], "mb", TEXTS["mb"])],   # two entries: the last is the buffer
+             [("open", "main.asm", "ma", TEXTS["ma"]), ("nonfile", "open")],                                    # an unsaved (untitled:) document
+             [("open", "main.asm", "mb", TEXTS["mb"]), ("nonfile", "definition")],
+             [("open", "main.asm", "ma", TEXTS["ma"]), ("req", "prepareRename", "main.asm", 2, 400)],
              [("open", "main.asm", "ma", TEXTS["ma"]), ("req", "completion", "main.asm", 400, 0)],
              [("open", "main.asm", "ma", TEXTS["ma"]), ("req", "completion", "main.asm", 2, 15)]]
     scripts = [("fixed", sc, "A") for sc in fixed] + [("tlc", script_of_hist(h), lay) for lay, h in hists] + [("sim", script_of_hist(h), lay) for lay, h in longer]
@@ -449,7 +486,7 @@ def main(tier):
     # binding demonstration: corrupt one field of accepted sessions; TLC has to reject each
     badids = {v["id"] for v in verdicts}
     clean = [x for x in recs if x["id"] not in badids and any(e["hasFresh"] and e["status"] == "ok" for e in x["events"])
-             and not any(e["k"] == "close" or e["kind"] == "rename" for e in x["events"])]
+             and not any(e["k"] in ("close", "nonfile") or e["kind"] == "rename" or e["nch"] != 1 for e in x["events"])]
     if not clean and not verdicts:
         raise V.ToolError("no cleanly accepted session to run the judge self-test on")
     muts = []
